@@ -82,7 +82,25 @@ def rand_value_op(rng, v, kind):
                                        rng.choice([0, 80, 65535]), rng.choice(["_", "6b=76", "6b=-", "61=62+63=."]))
 
 
+def pair_program(rng):
+    """two records that differ in exactly one field (or in nothing): equality must see every data field, in both
+    directions, also on a copy changed afterwards and after an assignment"""
+    r = G.rand_record(rng, G.name_pool(rng, 2))
+    if r.type in (1, 28) and rng.random() < 0.7:
+        a4 = bytes(rng.randrange(256) for _ in range(4))
+        r.addr = rng.choice([a4, b"\x00" * 10 + b"\xff\xff" + a4, b"\x00" * 12 + a4])
+    if r.type == 47:
+        r.bitmap = rng.choice([bytes.fromhex("0000000040"), bytes.fromhex("40"), bytes.fromhex("400000000008"), b""])
+    v = variant(rng, r)
+    lines = ["NEW a record", "SETREC a " + r.tok(), "NEW b record", "SETREC b " + v.tok(), "EQ a b", "EQ b a",
+             "COPY c a", "EQ c a", "SETREC c " + v.tok(), "EQ c a", "EQ c b", "ASSIGN a b", "EQ a b", "EQ a c",
+             "SETREC b " + r.tok(), "EQ a b", "GET a", "GET b", "GET c"]
+    return lines
+
+
 def gen_program(rng, n):
+    if rng.random() < 0.2:
+        return pair_program(rng)
     kind = rng.choice(["bitmap", "bitmap", "record", "record", "message", "query", "service"])
     LAST.clear()
     names = ["a", "b", "c", "d"]
